@@ -108,6 +108,7 @@ type machine struct {
 	ntDisconnect                               bool
 	kindsSeen                                  map[string]bool
 	memoryFirst                                bool
+	avoidShared                                bool   // steer around the listed shared-draft-key finding
 	draftStart                                 uint32 // blocks below carry payload version 0 (no draft data), from here on version 1
 }
 
@@ -143,6 +144,7 @@ func newMachine(t *rapid.T) *machine {
 		txOuts: map[common.Uint256]int{}, tx3: map[common.Uint256]int{}, deposits: map[common.Uint256]int{},
 		drafts: map[common.Uint256][]byte{}, draftRef: map[common.Uint256]int{}, kindsSeen: map[string]bool{},
 	}
+	m.avoidShared = vk.IsKnown("C13:proposaldraftdata:shared-hash-deleted-on-disconnect") && rapid.IntRange(0, 9).Draw(t, "avoidKnownShared") < 7
 	for i := 0; i < 4; i++ {
 		m.addrs = append(m.addrs, n.Keys[i].ProgramHash)
 	}
@@ -625,7 +627,7 @@ func (m *machine) genBlock(t *rapid.T) *blk {
 	blockDeps := map[common.Uint256]bool{}
 	ntx := rapid.IntRange(0, 5).Draw(t, "ntx")
 	for i := 0; i < ntx; i++ {
-		p := m.genTx(t, height, used, blockDrafts, !bk.shared)
+		p := m.genTx(t, height, used, blockDrafts, !bk.shared && !m.avoidShared)
 		if p == nil {
 			continue
 		}
